@@ -224,7 +224,12 @@ func suitePage(t *testing.T, cfg cfgT) {
 				}
 				tok = next
 				if interleave {
-					switch hr.intn(3) {
+					switch hr.intn(4) {
+					case 3: // delete exactly the row the token points at (the last row of the page just fetched): the token stays a valid lower bound
+						if len(got) > 0 {
+							rest(e.write, "DELETE", "/admin/relation-tuples?"+got[len(got)-1].ToURLQuery().Encode(), nil)
+							out.stat("iterations.token_row_deleted")
+						}
 					case 0:
 						insert(1 + hr.intn(3))
 					case 1: // delete a few arbitrary relationships by query
